@@ -127,7 +127,7 @@ def gen_strategy(ctx):
         "src": sys_st, "dst": sys_st, "mid": sys_st, "dim": dim_st,
         "values": st.lists(val_st, min_size=1, max_size=4),
         "array": st.booleans(),
-        "form": st.sampled_from(["str0", "str1", "units", "unitvalue", "system", "dict"]),
+        "form": st.sampled_from(["str0", "str1", "str2", "units", "unitvalue", "system", "dict"]),
         "other_dim": dim_st,
     })
 
@@ -150,6 +150,8 @@ def _target(c, sysd, form):
         return si.unit_str(sysd, c["dim"], 0)
     if form == "str1":
         return si.unit_str(sysd, c["dim"], 1)
+    if form == "str2":
+        return si.unit_str(sysd, c["dim"], 2)
     if form == "units":
         return mk_units(sysd, c["dim"])
     if form == "unitvalue":
